@@ -87,9 +87,16 @@ class Canonicalizer:
                 simplify=True,
             )
         elif isinstance(expression, Product):
-            # note: safe already sorts
+            # note: safe already sorts. A factor can itself canonicalize to a product
+            # (e.g., a fraction over one), so the factors are flattened once more.
             return Product.safe(
-                self.canonicalize(subexpr) for subexpr in _flatten_product(expression)
+                _flatten_product(
+                    Product(
+                        tuple(
+                            self.canonicalize(subexpr) for subexpr in _flatten_product(expression)
+                        )
+                    )
+                )
             )
         elif isinstance(expression, Fraction):
             numerator = self.canonicalize(expression.numerator)
